@@ -11,8 +11,8 @@ SIM = os.path.join(VERIF, "sim")
 ASAN_FLAGS = "-fsanitize=address,bounds,pointer-overflow,null,object-size -fno-sanitize-recover=all -fno-omit-frame-pointer -g"
 VARIANTS = {
     # name: (cc, lib cflags, harness cflags, link flags, extra defines)
-    "plain":   ("gcc",   "-g", "-O2 -g", "", ""),
-    "asan":    ("gcc",   ASAN_FLAGS, "-O1 " + ASAN_FLAGS, ASAN_FLAGS, ""),
+    "plain":   ("gcc",   "-g", "-O2 -g -Wno-format-truncation", "", ""),
+    "asan":    ("gcc",   ASAN_FLAGS, "-O1 -Wno-format-truncation " + ASAN_FLAGS, ASAN_FLAGS, ""),
     "asan-if": ("gcc",   ASAN_FLAGS + " -finstrument-functions", "-O1 " + ASAN_FLAGS, ASAN_FLAGS, "-DGMSIM_HOOKED"),
     "tsan-if": ("clang", "-fsanitize=thread -finstrument-functions -g", "-O1 -g", "-fsanitize=thread", "-DGMSIM_HOOKED -DGMSIM_TSAN -DGMSIM_THREADS"),
     "msan":    ("clang", "-fsanitize=memory -fsanitize-memory-track-origins -fno-omit-frame-pointer -g",
